@@ -336,14 +336,15 @@ class MarkdownRenderer(BaseRenderer):
         max_child_line_length = (
             max(max_line_length - prepend, 1) if max_line_length else None
         )
-        lines = self.blocks_to_lines(
+        lines = list(self.blocks_to_lines(
             token.children, max_line_length=max_child_line_length
-        )
-        return self.prefix_lines(
-            list(lines) or [""],
-            " " * indentation + token.leader + " " * (prepend - len(token.leader) - indentation),
-            " " * prepend,
-        )
+        )) or [""]
+        first_line_prefix = " " * indentation + token.leader + " " * (prepend - len(token.leader) - indentation)
+        if block_token.ThematicBreak.start(first_line_prefix + lines[0]):
+            # marker and content together would read as a thematic break ("- - - -"):
+            # the content starts on the next line
+            lines.insert(0, "")
+        return self.prefix_lines(lines, first_line_prefix, " " * prepend)
 
     def render_table(
         self, token: block_token.Table, max_line_length: int
